@@ -400,3 +400,67 @@ def h6_wiring(ctx, seq):
     else:
         k_bad = k
         ctx.oblige('tir_reported_nonfinite', not ctx.finite(sg.L[k_bad]))
+
+
+# ------------------------------------------------------------------------------------ H7 Newton-Raphson surfaces
+@harness('C02', 'H7_newton_raphson', funcs=FUNCS, cases=lambda tier: [dict(bundle='single'), dict(bundle='with_lost_ray')], max_paths=40,
+         bounds='even asphere = sphere (R = -2; symbolic in the thorough tier) + one symbolic r^2 coefficient, symbolic tolerance, max_iter = 2; ray through the point of the '
+                'base sphere with chord slope -2 (a symbolic point in the thorough tier) with the rational unit direction (2,-3,6)/7; alone or in a bundle with a ray that is already lost (NaN)',
+         doc='the iterative intersection leaves every valid ray either on the surface to within the tolerance (the residual tested before the '
+             'last step is below tol) or after max_iter steps - a lost ray in the same bundle does not cut the iteration short - and the '
+             'distance returned is the distance to the point after that many Newton steps along the ray')
+def h7_newton_raphson(ctx, bundle):
+    from optiland.coordinate_system import CoordinateSystem
+    from optiland.geometries import EvenAsphere
+    from optiland.rays import RealRays
+    from checks.C07 import ray_to_surface_point
+    R = ctx.real('R', ne=0) if ctx.tier == 'thorough' else ctx.const(-2.0)
+    c1 = ctx.real('c1', lo=-0.01, hi=0.01)
+    tol = ctx.real('tol', lo=1e-9, hi=1e-3)
+    if ctx.tier == 'thorough':
+        P0, d, P, tau = ray_to_surface_point(ctx, R, 0.0)
+    else:
+        from checks.C07 import rational
+        P0, d, P, tau = ray_to_surface_point(ctx, R, 0.0, sl=rational(ctx, -2, 1), tau=ctx.const(1.0))
+    MAXIT = 2
+    g = EvenAsphere(CoordinateSystem(), R, 0.0, tol=tol, max_iter=MAXIT, coefficients=[c1])
+    calls = []
+    lib_sag = g.sag
+
+    def counting_sag(x=0, y=0):
+        calls.append(1)
+        return lib_sag(x, y)
+    g.sag = counting_sag
+    nan = float('nan')
+    rays = RealRays(0.0, 0.0, 0.0, 0.0, 0.0, 1.0, 1.0, 0.55)
+    two = bundle == 'with_lost_ray'
+    for nm, v in zip(('x', 'y', 'z', 'L', 'M', 'N'), tuple(P0) + tuple(d)):
+        setattr(rays, nm, ctx.arr(v, nan) if two else ctx.arr(v))
+    xs, ys_, zs = g._intersection_sphere(rays)
+    if not ctx.finite(ctx.vals(zs)[0]):
+        return
+    # of the two points where the ray meets the base sphere the library takes the one nearer to the vertex plane: that has to be the point aimed at
+    ctx.assume(ctx.And(ctx.eq(ctx.vals(zs)[0], P[2]), ctx.eq(ctx.vals(xs)[0], P[0])))
+    t = ctx.vals(g.distance(rays))
+    k = len(calls)
+    tA = t[0]
+    if not ctx.finite(tA):
+        return                      # (the ray misses the base sphere / leaves the domain of the sag: it is lost)
+    ctx.oblige('at_most_max_iter_steps', 1 <= k <= MAXIT)
+
+    def sag(x, y):
+        r2 = x * x + y * y
+        return r2 / (R * (1 + ctx.sqrt(1 - r2 / (R * R)))) + c1 * r2
+    # the Newton steps from the base-sphere point (the point aimed at)
+    p = list(P)
+    dz_last = None
+    for _ in range(k):
+        dz_last = p[2] - sag(p[0], p[1])
+        step = dz_last / d[2]
+        p = [p[i] - step * d[i] for i in range(3)]
+    ctx.oblige('stops_only_on_tolerance_or_max_iter', ctx.Or(k == MAXIT, ctx.abs(dz_last) < tol))
+    dist2 = sum(((p[i] - P0[i]) * (p[i] - P0[i]) for i in range(1, 3)), (p[0] - P0[0]) * (p[0] - P0[0]))
+    ctx.oblige('distance_to_the_iterated_point', ctx.And(tA >= 0, ctx.eq(tA * tA, dist2)))
+    if two:
+        ctx.oblige('lost_ray_stays_lost', not ctx.finite(t[1]))
+    ctx.observe('tA', tA)
